@@ -132,12 +132,12 @@ func vXOrder(tag string) (present bool, val interface{}, rank int) {
 		f := vNondetFloat64(tag + ".f")
 		vAssume(vFinite(f))
 		// small integral values only: int(f) must be exact for the documented order to be checkable
-		k := vChoose(3, tag+".fv")
+		k := vChoose(5, tag+".fv") - 2 // -2..2: a negative x-order is an x-order like any other
 		vAssume(f == float64(k))
 		return true, f, k
 	case 2:
-		k := vChoose(3, tag+".sv")
-		return true, []string{"0", "1", "2"}[k], k
+		k := vChoose(5, tag+".sv")
+		return true, []string{"-2", "-1", "0", "1", "2"}[k], k - 2
 	}
 	return false, "first", 0 // an x-order that is neither a number nor a digit string does not order
 }
